@@ -318,6 +318,8 @@ func (c *compiler) compileFlow(file *ast.File, call *ast.CallExpr) *flow {
 		receivers: new(typeutil.Map),
 	}
 
+	provided := new(typeutil.Map) // *type => *input
+
 	for _, arg := range call.Args[1:] {
 		arg := astutil.Unparen(arg)
 
@@ -338,7 +340,6 @@ func (c *compiler) compileFlow(file *ast.File, call *ast.CallExpr) *flow {
 			c.errf(c.nodePosition(arg), "%q is an invalid cff.Flow Option", f.Name())
 			continue
 		case "Params":
-			provided := new(typeutil.Map) // *type => *input
 			for _, i := range ce.Args {
 				in := c.compileInput(i)
 				if other, _ := provided.At(in.Type).(*input); other != nil {
